@@ -1,5 +1,90 @@
 (* C09 — positions are values: moves and clones never alias or alter their source.
-   Only statements, `exact`, and Print Assumptions live here. *)
+   Only statements, `exact`, and Print Assumptions live here.
+
+   The model (Alloc.v): a store of Go objects (the Position value; the two slice headers of Position.analysis as
+   (array, offset, length)) and a heap of uint64 arrays with Go's append (in place while there is capacity, else a new
+   array).  alloc, copyPosition, analyze, New, Alloc, Clone, Move and MovePreallocated (fresh storage, caller-supplied
+   storage, failed moves that leave the buffer half written) are transcribed as operations on it.  `run hsq true ops` is
+   the store after the operations `ops` with the repaired Clone (`false`: the pinned one); `pure_run hsq ops` gives, for
+   every object id, the position VALUE that a pure reading of the same operations computes for it (None = not a live
+   handle: an Alloc buffer, the garbage of a failed move, an object handed over as a buffer by a failed move).
+   `ops_ok` = every source is a live handle, a buffer is an existing object other than the source (live, dead, the
+   source's parent, the object another live handle was derived from: anything).  `observe st h` = what a caller sees of
+   handle h: the value (squares, reserves, ply, Hash and the legal move set are functions of it), both group slices read
+   through their headers, and GameOver computed from those slices as hasRoad does.  All statements hold for every
+   per-square hash function `hsq` (the one of the implementation is Refine.hsq).
+
+   Height and Stacks are part of the value in the model: alloc and copyPosition always point them at the object's own
+   arrays and copy the contents; that this is what the code does is covered by the correspondence run and by the
+   address-level oracle of the check, not by these theorems. *)
 From Coq Require Import NArith ZArith List Bool.
-Require Import Board Move GameOver Alloc AllocFacts.
+Require Import Board Move GameOver Alloc AllocFacts AllocFacts2 AllocFacts3.
 Import ListNotations.
+
+(* Storage invariant, in every store reachable by admissible operations: every object's WhiteGroups header is a valid
+   slice of an array other than the nil array; no two objects' WhiteGroups headers point into the same array (analyze
+   writes only behind WhiteGroups[:0], so each object writes only storage that is its own: its Groups array, or an
+   array append allocated for it); and the BlackGroups slice of every live handle is a valid slice of that same array
+   or of an array that no WhiteGroups header points into (so nothing is ever written into it again). *)
+Theorem C09_owns_invariant : forall hsq ops, ops_ok hsq ops = true ->
+  let st := run hsq true ops in
+  (forall i o, nth_error (s_objs st) i = Some o -> valid (s_arrs st) (o_wg o) /\ (0 < r_arr (o_wg o))%nat) /\
+  (forall i j oi oj, nth_error (s_objs st) i = Some oi -> nth_error (s_objs st) j = Some oj -> i <> j ->
+     r_arr (o_wg oi) <> r_arr (o_wg oj)) /\
+  (forall h v, pval (pure_run hsq ops) h = Some v ->
+     exists o, nth_error (s_objs st) h = Some o /\ valid (s_arrs st) (o_bg o) /\
+       (r_arr (o_bg o) = r_arr (o_wg o) \/
+        forall j oj, nth_error (s_objs st) j = Some oj -> r_arr (o_wg oj) <> r_arr (o_bg o))).
+Proof. exact owns_invariant. Qed.
+Print Assumptions C09_owns_invariant.
+
+(* Value semantics: after ANY admissible operation sequence, EVERY live handle shows exactly the observables of the
+   pure value computed for it — whatever was done with other handles, with buffers it was derived from, or with its
+   own parent's storage since it was created. *)
+Theorem C09_value_semantics : forall hsq ops, ops_ok hsq ops = true ->
+  forall h v, pval (pure_run hsq ops) h = Some v -> observe (run hsq true ops) h = Some (observe_pure v).
+Proof. exact value_semantics. Qed.
+Print Assumptions C09_value_semantics.
+
+(* A clone c of a live handle h, followed by any admissible operations ops': c keeps showing the observables of the
+   value h had when cloned as long as c is not itself handed over as a buffer (h may be moved from, cloned again, even
+   handed over as a buffer and overwritten), and so does h as long as h is not handed over. *)
+Theorem C09_clone_identical : forall hsq ops h ops', ops_ok hsq (ops ++ OClone h :: ops') = true ->
+  exists v, pval (pure_run hsq ops) h = Some v /\
+    let c := length (pure_run hsq ops) in
+    let st := run hsq true (ops ++ OClone h :: ops') in
+    (Forall (never_buf c) ops' -> observe st c = Some (observe_pure v)) /\
+    (Forall (never_buf h) ops' -> observe st h = Some (observe_pure v)).
+Proof. exact clone_identical. Qed.
+Print Assumptions C09_clone_identical.
+
+(* hence clone and source are observationally identical, immediately (ops' = []) and after any further use of either *)
+Corollary C09_clone_same : forall hsq ops h ops', ops_ok hsq (ops ++ OClone h :: ops') = true ->
+  let c := length (pure_run hsq ops) in
+  Forall (never_buf c) ops' -> Forall (never_buf h) ops' ->
+  observe (run hsq true (ops ++ OClone h :: ops')) c = observe (run hsq true (ops ++ OClone h :: ops')) h /\
+  observe (run hsq true (ops ++ OClone h :: ops')) c <> None.
+Proof. exact clone_same. Qed.
+Print Assumptions C09_clone_same.
+
+(* The defect of the pinned tree, in the model (fixed_clone = false): the clone of a position with a white road
+   (3x3, a1-b1-c1) reports the game as not over while its source reports White's road win; with the repaired Clone
+   it reports the win.  Shows that the theorems above are about the repaired code and would fail for the pinned one. *)
+Theorem C09_clone_refuted_pinned : forall hsq,
+  ops_ok hsq (road_game ++ [OClone 5]) = true /\
+  verdict (observe (run hsq false (road_game ++ [OClone 5])) 5) = Some (true, GWhite) /\
+  verdict (observe (run hsq false (road_game ++ [OClone 5])) 6) = Some (false, GNone) /\
+  verdict (observe (run hsq true (road_game ++ [OClone 5])) 6) = Some (true, GWhite).
+Proof. exact clone_refuted_pinned. Qed.
+Print Assumptions C09_clone_refuted_pinned.
+
+(* and the pinned clone's BlackGroups header points into its source's array: after the source object is handed over
+   as a buffer the clone shows other black groups than before; not so with the repaired Clone *)
+Theorem C09_clone_aliases_pinned : forall hsq,
+  let ops := black_game ++ [OClone 4; OMovePre 2 (mvp 1 2) 4] in
+  ops_ok hsq ops = true /\
+  option_map (fun o : observation => snd (fst o)) (observe (run hsq false (black_game ++ [OClone 4])) 6) = Some [3%N] /\
+  option_map (fun o : observation => snd (fst o)) (observe (run hsq false ops) 6) <> Some [3%N] /\
+  option_map (fun o : observation => snd (fst o)) (observe (run hsq true ops) 6) = Some [3%N].
+Proof. exact clone_aliases_pinned. Qed.
+Print Assumptions C09_clone_aliases_pinned.
